@@ -6,12 +6,20 @@ HERE = os.path.dirname(os.path.dirname(os.path.abspath(__file__)))
 TECH = "bounded symbolic execution of the real Go code (go/ssa -> SMT-LIB bit-vectors), z3 decides every assertion/panic/branch; counterexamples replayed natively"
 
 CHECKS = {
+ "C06": dict(
+   text="The real radix tree (addRoute/insert/find with backtracking) is built for each of 12 route sets in every registration order and queried with a symbolic request path ('/' + every byte string up to N bytes); z3 is asked whether the chosen route, the parameter values or the full path can differ from a 40-line reference implementing 'static > :param > *catch-all at the first point of difference, with backtracking', or whether a handler is returned when the reference finds none.",
+   note="route sets are a fixed catalogue (not symbolic); raw-path unescaping and redirect lookups are outside; bounds quick N<=6, thorough N<=9",
+   ref="DESIGN.md §4 C06"),
+ "C12": dict(
+   text="The real RequestContext.Next/Abort/AbortWithStatus (int8 index arithmetic bit-precise) run on chains of up to N handlers whose behaviours are symbolic bytes over the seven behaviours of the property; a trace monitor checks enter-once-in-order, nothing entered after Abort, and code after Next running only after later handlers returned. Engine/group assembly (Use before/after registration, nesting depth <= 2, matched / not-found / wrong-method requests) is checked through the real Engine.ServeHTTP.",
+   note="chains N<=5 quick / 7 thorough; nesting depth 2; Engine constructed in-package without a transport",
+   ref="DESIGN.md §4 C12"),
  "C14": dict(
    text="Real ReadBodyStream/bodyStream.Read/skipRest/ReleaseBodyStream inside the real Serve loop over the real standard.Conn, with symbolic body bytes and every consumption program within the bounds (0..R reads with buffer sizes from {0,1,3,16}, stop anywhere), fixed-length (with prefetch limits 0/1/3) and chunked bodies, delivered whole or byte-wise, followed by a pipelined sentinel: bytes read are a prefix of the body, EOF only at its end, no network read beyond the body while streaming, the sentinel is parsed from the first byte after the body, and exactly one well-formed response per handled request.",
    note="one open known finding (prefetch swallowing pipelined bytes when 0 < MaxRequestBodySize < Content-Length) is reported as KNOWN-FINDING; small-body regime only",
    ref="DESIGN.md §4 C14"),
  "C18": dict(
-   text="Only the sequential clauses of C18 are decided by this technique: with the engine's running flag turning false at a symbolic request index, the real Serve loop completes that request's response with Connection: close, handles nothing afterwards and returns errShortConnection. Hook execution, listener closing, the wait bound and every timing/interleaving clause of C18 are not addressed (no scheduler or clock in the encoding).",
+   text="Only the sequential clauses of C18 are decided by this technique: with the engine's running flag turning false at a symbolic request index, the real Serve loop completes that request's response with Connection: close, handles nothing afterwards and returns errShortConnection; and Engine.Shutdown from every status value touches the transport and the hooks exactly once when running and reports an error otherwise (goroutines inlined: one schedule). Hook bounding, listener closing, the wait bound and every timing/interleaving clause of C18 are not addressed (no scheduler or clock in the encoding).",
    note="narrowed claim (DESIGN.md §4 C18); the rest of C18 is outside solver-based checking of sequential code",
    ref="DESIGN.md §4 C18"),
  "C19": dict(
